@@ -201,6 +201,42 @@ def run(prop, tier, seed, repo, jobs):
                 inconclusive.append('%s: witness replay failed: %s' % (tag, e))
         elif not res['error']:
             inconclusive.append('%s: vacuity: no witness run found' % tag)
+    # exit path of main(): terminate() after engine::run on every path (source-derived, see maintail.py)
+    if prop in ('C07', 'C10', 'C11'):
+        try:
+            from . import maintail
+            mobs, mfns = maintail.check(repo)
+            fns |= set(mfns) | {'main (statements after engine::run)'}
+            for ob in mobs:
+                nq += 1
+                if ob['verdict'] == 'unsat':
+                    nunsat += 1
+                    samples.append({'case': 'main() exit path', 'obligation': ob['name'], 'verdict': 'unsat', 'paths': ob['paths']})
+                    continue
+                # native confirmation: a service that is only a dependency of a failing build must be stopped at exit
+                case = {'kinds': ['service', 'build'], 'watch': False, 'deps': {0: [], 1: [0]}, 'roots': [1], 'dup_roots': [], 'launch0': [1], 'steps': [], 'hang': []}
+                import tempfile, shutil
+                from ..native import build_native, run_native
+                binpath, _ = build_native(repo)
+                d = tempfile.mkdtemp(prefix='zx-tail-', dir=os.environ.get('VERIF_SCRATCH', '/var/tmp'))
+                try:
+                    args = rp.write_project(case, d)
+                    r = run_native(binpath, d, args, None, timeout=60, extra_env={'ZX_FAIL_SCRIPT': 'echo t1'})
+                finally:
+                    shutil.rmtree(d, ignore_errors=True)
+                leaked = any(l.startswith('proc_dropped_unreaped') for l in r['log']) or any(l.startswith('exit_procs_unreaped=[') and not l.endswith('[]') for l in r['log'])
+                confirmed = leaked if ob['name'].startswith('terminate') else (r['rc'] != 1)
+                replay_n += 1
+                rpath = os.path.join(common.REPLAYS, '%s-maintail-%d.json' % (prop, replay_n))
+                os.makedirs(common.REPLAYS, exist_ok=True)
+                json.dump({'kind': 'maintail', 'obligation': ob, 'native_rc': r['rc'], 'native_log_tail': r['log'][-12:], 'confirmed': confirmed}, open(rpath, 'w'), indent=1, default=str)
+                if confirmed:
+                    violations.append(rpath)
+                    samples.append({'case': 'main() exit path', 'obligation': ob['name'], 'verdict': 'sat (reproduced natively)', 'detail': ob['detail']})
+                else:
+                    inconclusive.append('main() exit path: %s: not reproduced natively (replay %s)' % (ob['name'], rpath))
+        except Exception as e:
+            inconclusive.append('main() exit path: %s' % e)
     wall = time.time() - t0
     coverage = {
         'states': max(states, 1), 'transitions': max(transitions, 1), 'traces_validated_against_impl': traces_validated,
